@@ -204,7 +204,10 @@ def gen_ti(r):
     cnt = [r.choice([0, 0, 1, 2, 3, 4, 8, r.randint(0, 12)]) for _ in range(n)]
     if not hs:
         cnt = [0] * n
-    return "TI1D %d %d 0 1 %d %s %s %s" % (per, hs, n, V.hexf(w), " ".join(map(V.hexf, data)), " ".join(map(str, cnt)))
+    cmd = "TI1D"
+    if not per and r.random() < 0.4:
+        cmd = "TI1DG"      # count grid with its own geometry (origin w, width w) on a colvar of width 2w from 0
+    return "%s %d %d 0 1 %d %s %s %s" % (cmd, per, hs, n, V.hexf(w), " ".join(map(V.hexf, data)), " ".join(map(str, cnt)))
 
 
 def oracle_ti(line, out):
@@ -216,6 +219,8 @@ def oracle_ti(line, out):
     w = fr(float.fromhex(t[6]))
     data = [fr(float.fromhex(x)) for x in t[7:7 + n]]
     cnt = [int(x) for x in t[7 + n:7 + 2 * n]]
+    if out.startswith("ERR grid") and t[0] == "TI1DG":
+        return "ti1d:grid-geometry", "a gradient grid built on a count grid with a custom geometry (%d bins of width %r from %r) did not take that geometry: %s" % (n, float(w), float(w), out)
     if out.startswith("ERR"):
         return "ti1d:setup", "the harness could not build the grid: " + out
     parts = out.split("|")
@@ -235,9 +240,10 @@ def oracle_ti(line, out):
     for i in range(n + 1):
         if not close(col[i], float(S[i] - mn), 1e-11):
             return "ti1d:cumsum", "A[%d] = %r but cumulative sum minus its minimum is %r" % (i, col[i], float(S[i] - mn))
+    org = w if t[0] == "TI1DG" else Fr(0)
     for i in range(min(len(xi), n + 1)):
-        if abs(xi[i] - float(i * w)) > 1e-5 * max(1.0, abs(float(i * w))):
-            return "ti1d:abscissa", "xi[%d] = %r, expected %r" % (i, xi[i], float(i * w))
+        if abs(xi[i] - float(org + i * w)) > 1e-5 * max(1.0, abs(float(org + i * w))):
+            return "ti1d:abscissa", "xi[%d] = %r, expected %r (grid origin %r, grid width %r)" % (i, xi[i], float(org + i * w), float(org), float(w))
     return None
 
 
@@ -437,6 +443,8 @@ def check(run):
         alines.append(atimes_line(c, c["y"]))
     # ---------------- conjugate gradient (model and implementation)
     scases = [gen_div(r, solve=True) for _ in range(40 * scale)]
+    for zc in scases[:2]:      # zero gradient data: |divergence| < EPS, integrate() must return at once and leave the surface alone
+        zc["ev"] = [(b, [0.0] * len(f)) for b, f in zc["ev"]]
     tol = 1e-6
     itmax = 400
     slines = [div_line(c, "SOLVE", " %d %s" % (itmax, V.hexf(tol))) for c in scases]
@@ -489,7 +497,7 @@ def check(run):
         else:
             ncnt = [int(x) for x in t[7 + int(t[5]):]]
             run.count(c, int(t[5]) >= 2 and t[1] == "1")
-            run.dist("ti1d:per=%s,samples=%s,empty_bins=%s" % (t[1], t[2], "yes" if (t[2] == "1" and 0 in ncnt) else "no"))
+            run.dist("ti1d:per=%s,samples=%s,empty_bins=%s%s" % (t[1], t[2], "yes" if (t[2] == "1" and 0 in ncnt) else "no", ",custom-grid" if t[0] == "TI1DG" else ""))
             tie("ti1d", c, io.split("|")[0], mo, 1e-11)
             bad = oracle_ti(c, io)
         if bad:
@@ -635,6 +643,103 @@ def check(run):
         if not conv:
             run.dist("solve:not-converged-in-%d" % itmax)
     run.sample({"solve_case": slines[0][:300], "impl": impl[pos - len(slines)][:300]})
+
+    # ---------------- scale covariance (C16_cg_scale_covariant): the discrete problem is linear and the stopping criterion
+    # relative, so gradients scaled by c give the surface scaled by c with the same iteration count and reported error, and
+    # (widths * s, gradients / s) gives the same surface.  Powers of two: every floating-point operation scales exactly,
+    # so the comparison is bit for bit; the residual |A x - b| / |b| is recomputed independently of the solver's err.
+    vcases = [c for c in scases if any(any(f) for _, f in c["ev"])][:(10 if quick else 80)]
+    scales = [2.0 ** -27, 2.0 ** -13, 2.0 ** 13, 2.0 ** 27]      # 7.5e-9 .. 1.3e8
+    vlines, vmeta = [], []
+    for c in vcases:
+        vlines.append(div_line(c, "SOLVE", " %d %s" % (itmax, V.hexf(tol))))
+        vmeta.append((c, "base", 1.0))
+        for sc_ in scales:
+            c2 = dict(c)
+            c2["ev"] = [(b, [x * sc_ for x in f]) for b, f in c["ev"]]
+            vlines.append(div_line(c2, "SOLVE", " %d %s" % (itmax, V.hexf(tol))))
+            vmeta.append((c2, "force", sc_))
+        for sw in (2.0 ** -10, 2.0 ** 10):
+            c3 = dict(c)
+            c3["w"] = [x * sw for x in c["w"]]
+            c3["ev"] = [(b, [x / sw for x in f]) for b, f in c["ev"]]
+            vlines.append(div_line(c3, "SOLVE", " %d %s" % (itmax, V.hexf(tol))))
+            vmeta.append((c3, "width", sw))
+    rcv, vout, ev_ = V.run_lines(unit, vlines)
+    rcw, vmod, ew_ = V.run_lines(model, vlines)
+    if len(vout) != len(vlines):
+        run.violation("unit:crash", "the C16 unit driver died in the scale stream (rc=%d): %s" % (rcv, ev_[-300:]), {"kind": "unit", "case": vlines[len(vout)] if len(vout) < len(vlines) else None})
+    else:
+        base = None
+        for (cc, kind, fac), l, so, mo in zip(vmeta, vlines, vout, vmod if len(vmod) == len(vlines) else [None] * len(vlines)):
+            p = split_bar(so)
+            it, err = int(p[0][1]), float.fromhex(p[0][2])
+            b, x = parse_floats(p[1]), parse_floats(p[2])
+            run.count(l, True)
+            run.dist("solve:scale-%s=%g" % (kind, fac))
+            if mo is not None:
+                pm = split_bar(mo)
+                if pm[0][:2] != p[0][:2] or not same(parse_floats(pm[1]), b) or not same(parse_floats(pm[2]), x):
+                    run.mismatch("solve-scaled", l, so[:400], mo[:400])
+            if kind == "base":
+                base = (it, err, b, x)
+                continue
+            bit, berr, bb, bx = base
+            xfac = fac if kind == "force" else 1.0
+            if it != bit or err != berr or not same(x, [v * xfac for v in bx]):
+                run.violation("solve:scale-covariance", "%s scaled by %g: integrate() made %d iterations (err %g) and the surface is not %g times the unscaled one "
+                              "(unscaled: %d iterations, err %g): the discrete problem is linear and the criterion relative [case: %s]"
+                              % ("forces" if kind == "force" else "widths (forces divided)", fac, it, err, xfac, bit, berr, l[:300]),
+                              {"kind": "unit", "case": l, "case2": vlines[vlines.index(l) - 1], "impl": so[:2000]})
+            bn = math.sqrt(sum(v * v for v in b))
+            if bn > 0 and finite(x) and finite(b):
+                nxp = [n if pe else n + 1 for n, pe in zip(cc["nxg"], cc["per"])]
+                Ax = [float(v) for v in lap_oracle({"nd": cc["nd"], "per": cc["per"], "nxp": nxp, "w": cc["w"]}, x)]
+                rn = math.sqrt(sum((u - v) ** 2 for u, v in zip(Ax, b)))
+                if it < itmax and not (rn <= 10 * tol * bn):
+                    run.violation("solve:residual", "integrate() stopped after %d < %d iterations with |A x - b| / |b| = %g > tol = %g (|b| = %g; reported err %g) [case: %s]"
+                                  % (it, itmax, rn / bn, tol, bn, err, l[:300]), {"kind": "unit", "case": l, "impl": so[:2000]})
+
+    # ---------------- repeated integrate() on unchanged data (projected ABF integrates at every step, every output integrates
+    # again from the previous surface): tiny grids whose first solve is exact, so that the second starts from a zero residual
+    rcases = []
+    for _ in range(12 if quick else 150):
+        c = gen_div(r, solve=True)
+        c["nxg"] = [r.choice([1, 2, 2]) if not p_ else 2 for p_ in c["per"]]
+        c["ev"] = [([r.randrange(n) for n in c["nxg"]], [float(r.randint(-4, 4)) for _ in range(c["nd"])]) for _ in range(r.randint(1, 4))]
+        c["npre"], c["nev"] = 0, len(c["ev"])
+        c["w"] = [1.0] * c["nd"] if r.random() < 0.7 else c["w"]
+        c["hs"] = 0
+        rcases.append(c)
+    rlines = [div_line(c, "SOLVE2", " %d %s" % (itmax, V.hexf(tol))) for c in rcases]
+    rcr, rout, er_ = V.run_lines(unit, rlines)
+    rcm_, rmod, em_ = V.run_lines(model, rlines)
+    if len(rout) != len(rlines):
+        run.violation("unit:crash", "the C16 unit driver died in the repeated-solve stream (rc=%d): %s" % (rcr, er_[-300:]), {"kind": "unit", "case": rlines[len(rout)] if len(rout) < len(rlines) else None})
+    else:
+        nexact = 0
+        for c, l, so, mo in zip(rcases, rlines, rout, rmod if len(rmod) == len(rlines) else [None] * len(rlines)):
+            p = split_bar(so)
+            it, err = int(p[0][1]), float.fromhex(p[0][2])
+            b, x = parse_floats(p[1]), parse_floats(p[2])
+            run.count(l, True)
+            if mo is not None:
+                pm = split_bar(mo)
+                if pm[0][:2] != p[0][:2] or not same(parse_floats(pm[2]), x):
+                    run.mismatch("solve-repeated", l, so[:400], mo[:400])
+            bn = math.sqrt(sum(v * v for v in b))
+            if not finite(x) or err != err:
+                run.violation("solve:repeated-not-finite", "a second integrate() on unchanged data returned a non-finite surface or error (%d iterations, err %r): the first "
+                              "solve was exact and the second divides 0 by 0 [case: %s]" % (it, err, l[:300]), {"kind": "unit", "case": l, "impl": so[:1000]})
+                continue
+            if bn > 1e-14:
+                nxp = [n if pe else n + 1 for n, pe in zip(c["nxg"], c["per"])]
+                Ax = [float(v) for v in lap_oracle({"nd": c["nd"], "per": c["per"], "nxp": nxp, "w": c["w"]}, x)]
+                rn = math.sqrt(sum((u - v) ** 2 for u, v in zip(Ax, b)))
+                nexact += (rn == 0.0)
+                if not (rn <= 10 * tol * bn):
+                    run.violation("solve:residual", "after a repeated integrate() |A x - b| / |b| = %g > tol [case: %s]" % (rn / bn, l[:300]), {"kind": "unit", "case": l, "impl": so[:1000]})
+        run.dist("solve:repeated-exactly-solved", nexact)
 
     # ---------------- the energy b.x - x.Ax/2 (half the squared A-norm of the error, up to a constant) never increases
     # from one iteration to the next (C16_cg_error_monotone): the solver is stopped after 1, 2, 3, 5, 8, 13 iterations
@@ -826,10 +931,12 @@ def gen_e2e(r, k):
         if nd == 3:
             w = [0.5, 0.25, 1.0][(d + k) % 3]      # three different widths in every 3-D scenario
         vars_.append({"per": per, "w": w, "n": n, "lo": lo, "hi": lo + n * w})
+    # magnitude of the forces: O(1), very flat surfaces (2^-24) or large (2^12); the equations are linear
+    fscale = r.choice([1.0, 1.0, 2.0 ** -24, 2.0 ** 12])
     steps = []
     for _ in range(r.randint(8, 30)):
         z = [v["lo"] + (r.randrange(v["n"]) + r.choice([0.25, 0.5, 0.75])) * v["w"] for v in vars_]
-        e = [V.dyadic(r, -8, 8) for _ in range(nd)]
+        e = [V.dyadic(r, -8, 8) * fscale for _ in range(nd)]
         steps.append((z, e))
     ext = r.random() < 0.35          # extended-Lagrangian variables: CZAR estimator, <prefix>.czar.grad / .czar.pmf
     # files written by the outputFreq schedule during the run (no post_run) instead of at the end
@@ -844,32 +951,64 @@ def gen_e2e(r, k):
     same = r.random() < 0.4
     incl = r.random() < 0.5
     return {"id": "e2e%d" % k, "nd": nd, "vars": vars_, "steps": steps, "full": r.choice([1, 2, 4]), "apply": r.random() < 0.5,
-            "ext": ext, "freq": freq, "same": same, "incl": incl}
+            "ext": ext, "freq": freq, "same": same, "incl": incl, "fscale": fscale,
+            # a custom `grid { ... }` block in the abf bias: half the width, one bin cut off at both ends (non-periodic variables)
+            "gridblock": (not ext) and all(not v["per"] for v in vars_) and r.random() < 0.35,
+            # entry points that rebuild or use the divergence: state file (text/binary) between two runs, inputPrefix,
+            # projected ABF (integration at every step)
+            "flow": "plain" if (freq or ext) else r.choice(["plain", "plain", "restart-text", "restart-binary", "inputprefix", "pabf" if nd >= 2 else "plain"])}
 
 
 def e2e_scenario(c):
     nd = c["nd"]
-    L = ["natoms %d" % nd, "samestep %d" % (1 if c.get("same", True) else 0), "includecv %d" % (1 if c.get("incl", True) else 0),
-         "temperature 300", "dt 1", "prefix %s" % c["id"]]
+    flow = c.get("flow", "plain")
+    def config(extra_abf=()):
+        L = ["config EOF"]
+        for d, v in enumerate(c["vars"]):
+            L += ["colvar {", "  name v%d" % d, "  lowerBoundary %r" % v["lo"], "  upperBoundary %r" % v["hi"], "  width %r" % v["w"]]
+            if c.get("ext"):
+                L += ["  extendedLagrangian on", "  extendedFluctuation %r" % (0.5 * v["w"]), "  extendedTimeConstant 20", "  extendedLangevinDamping 0"]
+            L += ["  distanceZ {", "    main { atomNumbers %d }" % (d + 1), "    ref { dummyAtom (0,0,0) }", "    axis (0,0,1)",
+                  "    oneSiteTotalForce on"]
+            if v["per"]:
+                L += ["    period %r" % (v["hi"] - v["lo"]), "    wrapAround %r" % (0.5 * (v["hi"] + v["lo"]))]
+            L += ["  }", "}"]
+        L += ["abf {", "  name a", "  colvars " + " ".join("v%d" % d for d in range(nd)), "  fullSamples %d" % c["full"],
+              "  applyBias %s" % ("on" if c["apply"] else "off")] + list(extra_abf)
+        if c.get("gridblock"):
+            L += ["  grid {", "    widths " + " ".join(repr(v["w"] / 2) for v in c["vars"]),
+                  "    lower_boundaries " + " ".join(repr(v["lo"] + v["w"] / 2) for v in c["vars"]),
+                  "    upper_boundaries " + " ".join(repr(v["hi"] - v["w"] / 2) for v in c["vars"]), "  }"]
+        return L + ["}", "EOF", "show cv 0 energy 0 bias 0 atomf 0"]
+    def steps(lst):
+        L = []
+        for z, e in lst:
+            for d in range(nd):
+                L.append("pos %d 0 0 %s" % (d + 1, V.hexf(z[d])))
+                L.append("eforce %d 0 0 %s" % (d + 1, V.hexf(e[d])))
+            L.append("step")
+        return L
+    head = ["natoms %d" % nd, "samestep %d" % (1 if c.get("same", True) else 0), "includecv %d" % (1 if c.get("incl", True) else 0),
+            "temperature 300", "dt 1"]
     if c.get("freq"):
-        L += ["restartfreq 4"]
-    L += ["new", "config EOF"]
-    for d, v in enumerate(c["vars"]):
-        L += ["colvar {", "  name v%d" % d, "  lowerBoundary %r" % v["lo"], "  upperBoundary %r" % v["hi"], "  width %r" % v["w"]]
-        if c.get("ext"):
-            L += ["  extendedLagrangian on", "  extendedFluctuation %r" % (0.5 * v["w"]), "  extendedTimeConstant 20", "  extendedLangevinDamping 0"]
-        L += ["  distanceZ {", "    main { atomNumbers %d }" % (d + 1), "    ref { dummyAtom (0,0,0) }", "    axis (0,0,1)",
-              "    oneSiteTotalForce on"]
-        if v["per"]:
-            L += ["    period %r" % (v["hi"] - v["lo"]), "    wrapAround %r" % (0.5 * (v["hi"] + v["lo"]))]
-        L += ["  }", "}"]
-    L += ["abf {", "  name a", "  colvars " + " ".join("v%d" % d for d in range(nd)), "  fullSamples %d" % c["full"],
-          "  applyBias %s" % ("on" if c["apply"] else "off"), "}", "EOF", "show cv 0 energy 0 bias 0 atomf 0"]
-    for z, e in c["steps"]:
-        for d in range(nd):
-            L.append("pos %d 0 0 %s" % (d + 1, V.hexf(z[d])))
-            L.append("eforce %d 0 0 %s" % (d + 1, V.hexf(e[d])))
-        L.append("step")
+        head += ["restartfreq 4"]
+    half = len(c["steps"]) // 2
+    if flow in ("restart-text", "restart-binary"):
+        # a run, a state file, a fresh module that loads it (the divergence must be rebuilt from the loaded grids), a second run
+        L = head + ["prefix %s" % c["id"], "new"] + config() + steps(c["steps"][:half])
+        L += ["save %s %s.st" % ("binary" if flow == "restart-binary" else "text", c["id"]), "new"] + config() + ["load %s.st" % c["id"]]
+        # (the step at which the state was saved is repeated after the load with the same coordinates, as an engine does:
+        #  Colvars compares the recomputed values with the saved ones)
+        L += steps(c["steps"][max(half - 1, 0):])
+    elif flow == "inputprefix":
+        # a first run writes <id>a.count/.grad; a second bias starts from them through inputPrefix and goes on
+        L = head + ["prefix %sa" % c["id"], "new"] + config() + steps(c["steps"][:half]) + ["postrun"]
+        L += ["prefix %s" % c["id"], "new"] + config(["  inputPrefix %sa" % c["id"]]) + steps(c["steps"][half:])
+    elif flow == "pabf":
+        # projected ABF: the surface is integrated at every step and the bias force is its finite-difference gradient
+        L = head + ["prefix %s" % c["id"], "new"] + config(["  pABFintegrateFreq 1"]) + steps(c["steps"])
+    else:
+        L = head + ["prefix %s" % c["id"], "new"] + config() + steps(c["steps"])
     if not c.get("freq"):
         L.append("postrun")
     if nd >= 2:
@@ -907,6 +1046,8 @@ def e2e(run, r, quick, exe=None, model=None):
         run.count("e2e:" + json.dumps(c, sort_keys=True), True)
         run.dist("e2e:nd=%d,per=%s" % (c["nd"], "".join(str(int(v["per"])) for v in c["vars"])))
         run.dist("e2e:forces=%s" % ("same-step" if c.get("same", True) else "lagged,includecv=%d" % c.get("incl", 1)))
+        run.dist("e2e:force-scale=%g" % c.get("fscale", 1.0))
+        run.dist("e2e:flow=%s" % c.get("flow", "plain"))
         if degenerate:
             run.dist("e2e:single-point-periodic-dimension")
             if "CONFIG err=ok" in o:
@@ -915,7 +1056,7 @@ def e2e(run, r, quick, exe=None, model=None):
             elif "CONFIG err=input" not in o:
                 run.violation("e2e:run", "unexpected outcome for the single-bin periodic configuration: %s" % o[-300:], rep)
             continue
-        if rc != 0 or ("POSTRUN err=ok" not in o and not c.get("freq")) or "CONFIG err=ok" not in o:
+        if rc != 0 or ("POSTRUN err=ok" not in o and not c.get("freq")) or "CONFIG err=ok" not in o or "err=input" in o or "err=file" in o or "LOAD err=error" in o:
             run.violation("e2e:run", "the ABF scenario did not run to the end (rc=%d): %s" % (rc, (o + e)[-300:]), rep)
             continue
         dc = [l for l in o.splitlines() if l.startswith("DIVCHECK ")]
@@ -937,6 +1078,17 @@ def e2e(run, r, quick, exe=None, model=None):
                     rcm, mo, em = V.run_lines(model, [ml])
                     if not mo or not same(parse_floats(mo[0].split()[1:]), inc):
                         run.mismatch("abf-site-divergence", c["id"] + ": " + ml[:300], " ".join(parts[3].split()[:12]), (mo[0] if mo else em)[:300])
+        if c.get("gridblock"):
+            run.dist("e2e:custom-grid-block")
+            try:
+                _, gd_, _ = read_multicol(os.path.join(d, c["id"] + ".grad"))
+                _, cd_, _ = read_multicol(os.path.join(d, c["id"] + ".count"))
+                want = [(v["lo"] + v["w"] / 2, v["w"] / 2, 2 * v["n"] - 2, 0) for v in c["vars"]]
+                if [tuple(x) for x in gd_] != [tuple(x) for x in cd_] or any(abs(a[0] - b[0]) > 1e-12 or abs(a[1] - b[1]) > 1e-12 or a[2] != b[2] for a, b in zip(gd_, want)):
+                    run.violation("e2e:grid-geometry", "abf with a custom grid block: the gradient file is on the grid %s, the count file on %s, configured %s: "
+                                  "mean forces and counts are binned on different grids" % (gd_, cd_, want), rep)
+            except (OSError, ValueError, IndexError):
+                pass
         pairs = [(".grad", ".pmf", ".count")] + ([(".czar.grad", ".czar.pmf", ".zcount")] if c.get("ext") else [])
         if c.get("ext"):
             run.dist("e2e:extended-lagrangian-czar")
@@ -1014,7 +1166,7 @@ def file_oracle(run, d, stem, gext, pext, cext, rep):
     Ax = [float(v) for v in lap_oracle({"nd": nd, "per": per, "nxp": nxp, "w": w}, pm)]
     bn = math.sqrt(sum(v * v for v in bvec))
     rn = math.sqrt(sum((u - v) ** 2 for u, v in zip(Ax, bvec)))
-    if not (rn <= 1e-4 * bn + 1e-10):
+    if not (rn <= 1e-4 * bn):      # purely relative: flat surfaces (tiny gradients) must be integrated as well as steep ones
         run.violation("e2e:poisson", "written PMF: |Laplacian(pmf) - divergence(written gradients)| = %g > 1e-4 |divergence| = %g (%d samples) [%s]"
                       % (rn, 1e-4 * bn, nsamp, stem + pext), rep)
 
